@@ -709,6 +709,26 @@ func TestC24(t *testing.T) {
 	}
 	c.Exhaustive("every type x 5 orders of long/short/empty packets decoded into one destination struct (per shard)", nSeq)
 
+	// ---- ad hoc structs that differ only in identity: function-local types sharing one name (and anonymous ones) ----
+	// with different message numbers / no message number, used in both orders inside one process; each must be
+	// encoded with, and accept only, its own number
+	{
+		probes := c24SameNameProbes()
+		nSame := 0
+		for _, order := range [][]int{{0, 1, 2, 3, 0, 1, 2, 3}, {3, 2, 1, 0, 3, 2, 1, 0}} {
+			for _, i := range order {
+				if err := probes[i](); err != nil {
+					what := fmt.Sprintf("ad hoc struct types sharing a name (probe %d of order %v): %v", i, order, err)
+					c.Violation(what, "")
+					t.Fatalf("VF-VIOLATION: property=C24 %s", what)
+				}
+				nSame++
+				c.Case(true, fmt.Sprintf("samename|%d", i), "table:same-name-local-types")
+			}
+		}
+		c.Exhaustive("4 struct types with identical shape apart from the message number (two function-local types named msg with numbers 43 and 44, one local msg without number, one anonymous with 45) x 2 orders x 2 passes: exact encoding, round trip, rejection of the other numbers", nSame)
+	}
+
 	// ---- mpint table: +-2^k, +-(2^k-1), +-(2^k+1) -----------------------------------
 	maxK := 4096
 	nMp := 0
@@ -907,4 +927,85 @@ func FuzzC24(f *testing.F) {
 			t.Fatalf("VF-VIOLATION: property=C24 %v", err)
 		}
 	})
+}
+
+// c24SameNameProbes returns checks over struct types that only differ in
+// identity and message number.  The expected encodings are written out by hand.
+func c24SameNameProbes() []func() error {
+	check := func(name string, own []byte, enc func(uint32) ([]byte, error), dec func([]byte) (uint32, error)) error {
+		body := []byte{0x01, 0x02, 0x03, 0x04}
+		want := append(append([]byte{}, own...), body...)
+		got, err := enc(0x01020304)
+		if err != nil {
+			return fmt.Errorf("%s: Marshal panicked: %v", name, err)
+		}
+		if !bytes.Equal(got, want) {
+			return fmt.Errorf("%s: Marshal = %x, want %x", name, got, want)
+		}
+		if n, err := dec(want); err != nil || n != 0x01020304 {
+			return fmt.Errorf("%s: Unmarshal(%x) = %#x, %v; want 0x1020304, nil", name, want, n, err)
+		}
+		if len(own) == 1 {
+			for _, other := range []byte{43, 44, 45, 0} {
+				if other == own[0] {
+					continue
+				}
+				bad := append([]byte{other}, body...)
+				if _, err := dec(bad); err == nil {
+					return fmt.Errorf("%s (message number %d): Unmarshal accepted %x, a packet with message number %d", name, own[0], bad, other)
+				}
+			}
+		}
+		return nil
+	}
+	guard := func(f func() ([]byte, error)) (out []byte, err error) {
+		defer func() {
+			if r := recover(); r != nil {
+				err = fmt.Errorf("%v", r)
+			}
+		}()
+		return f()
+	}
+	p43 := func() error {
+		type msg struct {
+			N uint32 `sshtype:"43"`
+		}
+		return check("local type msg{N uint32 `sshtype:\"43\"`}", []byte{43},
+			func(n uint32) ([]byte, error) { return guard(func() ([]byte, error) { return ssh.Marshal(msg{n}), nil }) },
+			func(b []byte) (uint32, error) { var m msg; err := ssh.Unmarshal(b, &m); return m.N, err })
+	}
+	p44 := func() error {
+		type msg struct {
+			N uint32 `sshtype:"44"`
+		}
+		return check("local type msg{N uint32 `sshtype:\"44\"`}", []byte{44},
+			func(n uint32) ([]byte, error) { return guard(func() ([]byte, error) { return ssh.Marshal(msg{n}), nil }) },
+			func(b []byte) (uint32, error) { var m msg; err := ssh.Unmarshal(b, &m); return m.N, err })
+	}
+	pNone := func() error {
+		type msg struct {
+			N uint32
+		}
+		return check("local type msg{N uint32} (no message number)", nil,
+			func(n uint32) ([]byte, error) { return guard(func() ([]byte, error) { return ssh.Marshal(msg{n}), nil }) },
+			func(b []byte) (uint32, error) { var m msg; err := ssh.Unmarshal(b, &m); return m.N, err })
+	}
+	pAnon := func() error {
+		return check("anonymous struct{N uint32 `sshtype:\"45\"`}", []byte{45},
+			func(n uint32) ([]byte, error) {
+				return guard(func() ([]byte, error) {
+					return ssh.Marshal(struct {
+						N uint32 `sshtype:"45"`
+					}{n}), nil
+				})
+			},
+			func(b []byte) (uint32, error) {
+				var m struct {
+					N uint32 `sshtype:"45"`
+				}
+				err := ssh.Unmarshal(b, &m)
+				return m.N, err
+			})
+	}
+	return []func() error{p43, p44, pNone, pAnon}
 }
